@@ -331,3 +331,24 @@ for _i, (_a, _w) in enumerate((('x html_quote', ('v', 'x', 'h')), ('x', ('v', 'x
              params=dict(self=Obj(VAR, lazy=False, prov='fresh'), args=Const(_a), fmt=Const('s'), encoding=NoneV()),
              exit_hook=_simple_exit(_w))
     SIMPLE.append(VAR + '.__init__#C03.simple%d' % _i)
+
+
+# ------------------------------------------------------------------ C15: the C-style format stage is never skipped by the shortcut
+# %(x html_quote).2f / %(x)05d: only a tag with the plain format 's' may compile to the renderer's shortcut form
+# (('v', name[, 'h']) blocks are inserted without Var.render, i.e. without the format stage)
+def _cformat_exit(E, outcome, value, env, prefix):
+    ob = _ob(E, prefix, 'C15')
+    if outcome != 'normal':
+        return
+    me = E.heap[env.locals['self'].addr]
+    ob('init.no_shortcut_form_with_a_c_format', bool('simple_form' not in me.fields),
+       'a tag with a C-style format other than plain s does not compile to the shortcut form: its value goes through the '
+       'format stage of the pipeline')
+
+
+CFORMAT = []
+for _i, (_a, _f) in enumerate((('x html_quote', '.2f'), ('x', '05d'), ('name=x html_quote', '10s'), ('x html_quote', 'd'))):
+    contract(VAR + '.__init__', variant='C15.cformat%d' % _i,
+             params=dict(self=Obj(VAR, lazy=False, prov='fresh'), args=Const(_a), fmt=Const(_f), encoding=NoneV()),
+             exit_hook=_cformat_exit)
+    CFORMAT.append(VAR + '.__init__#C15.cformat%d' % _i)
